@@ -15,14 +15,15 @@ ObsOk(o) ==
 ObsGeom(o) ==      \* unprimed: evaluated in the state reached (see GeomOk)
     /\ o.a2g = GlobalOfActive
     /\ o.g2a = ActiveOfGlobal
-    /\ o.vol = [g \in 1..NC |-> Volume(g)]
-    /\ o.avol = [a \in 1..NumActive |-> Volume(ActiveSeq[a])]
-    /\ o.depth2 = [g \in 1..NC |-> Depth2(g)]
-    /\ o.dims = [g \in 1..NC |-> Dims(g)]
+    /\ o.vol4 = [g \in 1..NC |-> Volume4(g)]
+    /\ o.avol4 = [a \in 1..NumActive |-> Volume4(ActiveSeq[a])]
+    /\ o.depth8 = [g \in 1..NC |-> Depth8(g)]
+    \* (the horizontal extents of a wedge cell are lengths of slanted edges: only its thickness is compared)
+    /\ \A g \in 1..NC : o.dims4[g][3] = Dims4(g)[3] /\ (Plain => o.dims4[g] = Dims4(g))
 TInit == l = 1 /\ GInit
-TReset == IsEvent("Reset") /\ exists' = FALSE /\ UNCHANGED <<nx, ny, nz, dx, dy, dz, tops, shift, actnum>>
+TReset == IsEvent("Reset") /\ exists' = FALSE /\ UNCHANGED <<nx, ny, nz, dx, dy, dz, tops, shift, actnum, wp>>
 TCreate == /\ IsEvent("create") /\ Ev.res = "ok"
-           /\ Create(Ev.dims[1], Ev.dims[2], Ev.dims[3], Ev.dx, Ev.dy, Ev.dz, Ev.tops, Ev.shift, Ev.actnum)
+           /\ Create(Ev.dims[1], Ev.dims[2], Ev.dims[3], Ev.dx, Ev.dy, Ev.dz, Ev.tops, Ev.shift, Ev.actnum, Ev.wp)
            /\ ObsOk(Ev.obs)
 TResetAct == IsEvent("reset") /\ Ev.res = "ok" /\ ResetActnum(Ev.actnum) /\ ObsOk(Ev.obs)
 TResetAll == IsEvent("reset_all") /\ Ev.res = "ok" /\ ResetAllActive /\ ObsOk(Ev.obs)
